@@ -86,7 +86,10 @@ pub fn c31(out: &mut Out, ex: &mut Exec, seed: u64, thorough: bool) {
         v.pop();
         let (lo, hi) = { let lo = 2 + rng.below(10) as u32; (lo, lo + rng.below(8) as u32) };
         v.push("sim rawmem 1000 8000/ffff".into()); v.push("sim rawmem 0181 1000/ffff".into());
-        v.push(crate::c34::timer_line(lo, hi, true, 0x81, 4, true, rng.below(1 << 20), 500));
+        // inclusive and end-exclusive ranges are sampled by different code paths of the timer
+        let incl = rng.bool();
+        out.hist.hit(if incl { "timer_range_inclusive" } else { "timer_range_half_open" });
+        v.push(crate::c34::timer_line(lo, if incl { hi } else { hi + 2 }, incl, 0x81, 4, true, rng.below(1 << 20), 500));
         if !seeded { v.push("sim known".into()); }
         // a loaded block with reserved (.blkw) words: their data must stay what the initialisation strategy gave
         v.push(format!("sim load 3100:_,{:04x},_,_,{:04x},_", rng.u16(), rng.u16()));
@@ -115,5 +118,5 @@ pub fn c31(out: &mut Out, ex: &mut Exec, seed: u64, thorough: bool) {
         out.nontrivial += 1;
         if out.samples.len() < 2 { let mut s = Json::obj(); s.set("config", Json::Arr(v.iter().take(6).map(|x| Json::s(x.chars().take(100).collect::<String>())).collect())); s.set("final", Json::s(r1[r1.len() - 2].clone())); out.sample(s); }
     }
-    out.rule = "generated programs with keyboard input and a seeded timer (interrupt handler = RTI), machine initialised with Seeded{seed} (even cases; the full seeded image is dumped to the model) or Known{value} (odd cases; `sim known` checks every register and every word outside the OS image and the I/O page equals the value, uninitialised); 30-90 single steps then run to halt; run twice in independent interpreters: every op's digest (registers, PC, PSR, changed memory, interrupts via frames, output) must be identical, and run 1 is compared with the model".into();
+    out.rule = "generated programs with keyboard input and a seeded timer over an inclusive or an end-exclusive range (interrupt handler = RTI), machine initialised with Seeded{seed} (even cases; the full seeded image is dumped to the model) or Known{value} (odd cases; `sim known` checks every register and every word outside the OS image and the I/O page equals the value, uninitialised); 30-90 single steps then run to halt; run twice in independent interpreters: every op's digest (registers, PC, PSR, changed memory, interrupts via frames, output) must be identical, and run 1 is compared with the model".into();
 }
